@@ -2,11 +2,12 @@
 
 from __future__ import annotations
 
+import contextlib
 import dataclasses
 import typing as t
 
 from typelib import marshals, serdes, unmarshals
-from typelib.py import classes, compat, inspection
+from typelib.py import classes, compat, inspection, refs
 
 __all__ = ("Codec", "codec")
 
@@ -60,6 +61,10 @@ def codec(
     # `t` may name the type by reference or wrap it (`NewType`, alias, qualifier),
     #   the routine is bound to what it resolved to.
     bound = getattr(unmarshal, "t", t)
+    # A string-valued alias is resolved lazily, its routine is bound to the reference.
+    if inspection.isforwardref(bound):
+        with contextlib.suppress(NameError, TypeError):
+            bound = inspection.unwrap(refs.evaluate(bound))
     if inspection.isbytestype(t) or inspection.isbytestype(bound):
         cdc = cls(
             marshal=marshal,
